@@ -23,7 +23,7 @@ func verifHarness_C02_sysNoRetries() {
 	c := vProdCfg{n: 3, parts: 2, brokers: 1, faults: 1, faultMenu: vfKinds, retryMax: 0, delay: 1,
 		partsOf: []int32{0, 1, 1}}
 	if vTier() > 0 {
-		c.delay = 3
+		c.delay = 2
 	}
 	c.class = "retryMax=0,two-partitions-one-broker"
 	r := vRunProducer(c)
@@ -39,7 +39,7 @@ func verifHarness_C02_sysWaitForSpace() {
 	c.retryMax = 1 + vChoose("retryMax", 2)
 	c.idem = false
 	if vTier() > 0 {
-		c.n, c.faults = 4, 2
+		c.n = 4
 	}
 	c.class = vSprintf("waitForSpace,retryMax=%d", c.retryMax)
 	r := vRunProducer(c)
@@ -58,21 +58,22 @@ type vBPModel struct {
 	in       chan *ProducerMessage
 	retrying bool
 	pending  []*ProducerMessage
+	heldFin  *ProducerMessage // a fin marker this broker producer has not got round to yet
 }
 
 // verifHarness_C02_stepPartitionProducer drives the real partitionProducer.dispatch goroutine
 // (retry levels, high watermark, fin/chaser markers, per-level retry buffers, flushRetryBuffers,
 // leader re-selection) between a feeder and model brokerProducers. n messages are submitted in
-// order; the brokers refuse pending messages up to 2 (3) times at arbitrary moments, so
+// order (3, thorough 4); the brokers refuse pending messages up to 2 times at arbitrary moments and get round to fin markers arbitrarily late, so
 // messages bounced twice, once and not at all are around at the same time; fresh input and the
 // retry path merge in every possible order. Whatever happens, the messages reach the log in
 // submission order.
 func verifHarness_C02_stepPartitionProducer() {
 	vConfig("delay", 0)
-	n := 4
+	n := 3
 	rejectsLeft := 2
 	if vTier() > 0 {
-		n, rejectsLeft = 5, 3
+		n = 4
 	}
 	conf := NewConfig()
 	conf.Producer.Retry.Max = 4
@@ -98,20 +99,22 @@ func verifHarness_C02_stepPartitionProducer() {
 	}
 	// a model broker takes what the partition producer sent it (eagerly: taking later changes
 	// nothing about the order, since a refusal bounces pending and later messages alike)
+	// A model broker takes the data messages the partition producer sent it eagerly (taking
+	// them later changes nothing about the order: a refusal bounces pending and later messages
+	// alike). A fin marker is different: the broker producer it was sent to has been abandoned
+	// and may get round to it arbitrarily late, while newer copies already travel through its
+	// successor - so handling a fin is an action of its own.
 	drain := func() {
 		<-time.After(time.Millisecond) // the partition producer finishes what it is doing
 		for _, b := range bps {
-			for len(b.in) > 0 {
+			for len(b.in) > 0 && b.heldFin == nil {
 				m := <-b.in
 				switch {
 				case m.flags&syn == syn:
 					b.retrying = false
-				case b.retrying:
-					bounce(m)
-					if m.flags&fin == fin {
-						b.retrying = false
-					}
 				case m.flags&fin == fin:
+					b.heldFin = m
+				case b.retrying:
 					bounce(m)
 				default:
 					b.pending = append(b.pending, m)
@@ -122,7 +125,7 @@ func verifHarness_C02_stepPartitionProducer() {
 	next := 0
 	for steps := 0; len(log) < n; steps++ {
 		vAssume(steps < 40)
-		// enabled actions: 0 feed fresh, 1 feed from the retry path, 2+k broker k answers
+		// enabled actions: 0 feed fresh, 1 feed from the retry path, 2+2k broker k answers, 3+2k broker k handles its fin
 		var enabled []int
 		if next < n {
 			enabled = append(enabled, 0)
@@ -132,7 +135,10 @@ func verifHarness_C02_stepPartitionProducer() {
 		}
 		for k, b := range bps {
 			if len(b.pending) > 0 {
-				enabled = append(enabled, 2+k)
+				enabled = append(enabled, 2+2*k)
+			}
+			if b.heldFin != nil {
+				enabled = append(enabled, 3+2*k)
 			}
 		}
 		vAssert(len(enabled) > 0, "pipeline-not-stuck")
@@ -140,18 +146,24 @@ func verifHarness_C02_stepPartitionProducer() {
 			return
 		}
 		act := enabled[vChoose("action", len(enabled))]
-		switch act {
-		case 0:
+		switch {
+		case act == 0:
 			input <- &ProducerMessage{Topic: "t", Partition: 0, Metadata: next}
 			next++
 			drain()
-		case 1:
+		case act == 1:
 			m := retryQ[0]
 			retryQ = retryQ[1:]
 			input <- m
 			drain()
+		case act%2 == 1:
+			b := bps[(act-3)/2]
+			bounce(b.heldFin) // retrying or not, the marker goes back; it ends the bouncing
+			b.heldFin = nil
+			b.retrying = false
+			drain()
 		default:
-			b := bps[act-2]
+			b := bps[(act-2)/2]
 			if rejectsLeft > 0 && vChoose("refuse", 2) == 1 {
 				rejectsLeft--
 				for _, m := range b.pending {
